@@ -18,6 +18,8 @@ pub fn engine_by_key(key: &str) -> Option<Box<dyn DynEngine>> {
         "container" => Box::new(crate::engines::container::Container),
         "lifetime" => Box::new(crate::engines::lifetime::Lifetime),
         "twin" => Box::new(crate::engines::twin::Twin),
+        "debug:hang" => Box::new(crate::engines::debug::Debug { kind: "hang" }),
+        "debug:crash" => Box::new(crate::engines::debug::Debug { kind: "crash" }),
         "roundtrip" => Box::new(crate::engines::serde_eng::RoundTrip),
         "untrusted" => Box::new(crate::engines::serde_eng::Untrusted),
         "conc" => Box::new(Conc { only_invariant: None }),
@@ -25,6 +27,10 @@ pub fn engine_by_key(key: &str) -> Option<Box<dyn DynEngine>> {
         "conc:symmetry" => Box::new(Conc { only_invariant: Some(false) }),
         _ => return None,
     })
+}
+
+fn replay_timeout_s() -> u64 {
+    std::env::var("GSIM_REPLAY_TIMEOUT_S").ok().and_then(|s| s.parse().ok()).unwrap_or(90)
 }
 
 pub struct PartOut {
@@ -48,9 +54,10 @@ fn confirm_in_fresh_process(path: &str) -> Option<i32> {
     let start = Instant::now();
     loop {
         if let Ok(Some(st)) = child.try_wait() {
-            return st.code();
+            use std::os::unix::process::ExitStatusExt;
+            return st.code().or_else(|| st.signal().map(|s| 128 + s));
         }
-        if start.elapsed() > Duration::from_secs(90) {
+        if start.elapsed() > Duration::from_secs(replay_timeout_s()) {
             let _ = child.kill();
             let _ = child.wait();
             return Some(124);
@@ -169,7 +176,7 @@ pub fn finish(prop: &str, tier: Tier, seed: u64, spec: CheckSpec, parts: Vec<Par
             "engines": engines,
             "components": components(),
             "worker_processes": workers(),
-            "distinct_counting": "fingerprints are collected in 2^24-bit sketches per worker process and OR-ed; the reported numbers are set-bit counts, i.e. lower bounds of the number of distinct fingerprints",
+            "distinct_counting": "fingerprints are collected in 2^25-bit sketches per worker process and OR-ed; the reported numbers are set-bit counts, i.e. lower bounds of the number of distinct fingerprints",
             "simulated_time": "gdsl has no clock; logical time is counted in calls / lock points / stream bytes (engines.*.stats.counters)",
         }),
         assumptions: spec.assumptions,
@@ -202,7 +209,7 @@ pub fn check(prop: &str, tier: Tier, seed: u64) -> i32 {
     let cap = budget(tier, 150, 1200);
     match prop {
         "C03" => {
-            let p = run_part(prop, "hist:contract", seed, budget(tier, 400_000, 6_000_000), tier, cap, "state_op_outcome");
+            let p = run_part(prop, "hist:contract", seed, budget(tier, 1_500_000, 20_000_000), tier, cap, "state_op_outcome");
             finish(
                 prop,
                 tier,
@@ -218,8 +225,8 @@ pub fn check(prop: &str, tier: Tier, seed: u64) -> i32 {
         }
         "C01" | "C02" => {
             let (hk, ck) = if prop == "C01" { ("hist:mirror", "conc:mirror") } else { ("hist:symmetry", "conc:symmetry") };
-            let p1 = run_part(prop, hk, seed, budget(tier, 250_000, 4_000_000), tier, cap, "state_op_outcome");
-            let p2 = run_part(prop, ck, seed, budget(tier, 40_000, 600_000), tier, cap, "interleavings");
+            let p1 = run_part(prop, hk, seed, budget(tier, 1_000_000, 12_000_000), tier, cap, "state_op_outcome");
+            let p2 = run_part(prop, ck, seed, budget(tier, 200_000, 2_500_000), tier, cap, "interleavings");
             finish(
                 prop,
                 tier,
@@ -234,7 +241,7 @@ pub fn check(prop: &str, tier: Tier, seed: u64) -> i32 {
             )
         }
         "C17" => {
-            let p = run_part(prop, "conc", seed, budget(tier, 150_000, 3_000_000), tier, cap, "interleavings");
+            let p = run_part(prop, "conc", seed, budget(tier, 500_000, 6_000_000), tier, cap, "interleavings");
             finish(
                 prop,
                 tier,
@@ -253,7 +260,7 @@ pub fn check(prop: &str, tier: Tier, seed: u64) -> i32 {
             )
         }
         "C20" => {
-            let p = run_part(prop, "inject", seed, budget(tier, 300_000, 5_000_000), tier, cap, "host_script_plan");
+            let p = run_part(prop, "inject", seed, budget(tier, 5_000_000, 60_000_000), tier, cap, "host_script_plan");
             finish(
                 prop,
                 tier,
@@ -271,7 +278,7 @@ pub fn check(prop: &str, tier: Tier, seed: u64) -> i32 {
             )
         }
         "C11" => {
-            let p = run_part(prop, "scc", seed, budget(tier, 150_000, 2_500_000), tier, cap, "graph_and_container_order");
+            let p = run_part(prop, "scc", seed, budget(tier, 4_000_000, 50_000_000), tier, cap, "graph_and_container_order");
             finish(
                 prop,
                 tier,
@@ -286,7 +293,7 @@ pub fn check(prop: &str, tier: Tier, seed: u64) -> i32 {
             )
         }
         "C12" => {
-            let p = run_part(prop, "roundtrip", seed, budget(tier, 150_000, 2_500_000), tier, cap, "graph_wire_orders");
+            let p = run_part(prop, "roundtrip", seed, budget(tier, 2_000_000, 30_000_000), tier, cap, "graph_wire_orders");
             finish(
                 prop,
                 tier,
@@ -301,7 +308,7 @@ pub fn check(prop: &str, tier: Tier, seed: u64) -> i32 {
             )
         }
         "C13" => {
-            let p = run_part(prop, "untrusted", seed, budget(tier, 12_000, 200_000), tier, cap, "mutated_documents");
+            let p = run_part(prop, "untrusted", seed, budget(tier, 200_000, 2_500_000), tier, cap, "mutated_documents");
             let docs = p.stats.get("documents");
             let mut p = p;
             p.runs = docs.max(p.runs);
@@ -319,7 +326,7 @@ pub fn check(prop: &str, tier: Tier, seed: u64) -> i32 {
             )
         }
         "C18" => {
-            let p = run_part(prop, "container", seed, budget(tier, 200_000, 3_000_000), tier, cap, "state_and_call");
+            let p = run_part(prop, "container", seed, budget(tier, 3_000_000, 40_000_000), tier, cap, "state_and_call");
             finish(
                 prop,
                 tier,
@@ -334,7 +341,7 @@ pub fn check(prop: &str, tier: Tier, seed: u64) -> i32 {
             )
         }
         "C19" => {
-            let p = run_part(prop, "lifetime", seed, budget(tier, 200_000, 3_000_000), tier, cap, "history_and_drop_order");
+            let p = run_part(prop, "lifetime", seed, budget(tier, 1_500_000, 20_000_000), tier, cap, "history_and_drop_order");
             finish(
                 prop,
                 tier,
@@ -349,7 +356,7 @@ pub fn check(prop: &str, tier: Tier, seed: u64) -> i32 {
             )
         }
         "C15" => {
-            let p = run_part(prop, "twin", seed, budget(tier, 200_000, 3_000_000), tier, cap, "call_and_result");
+            let p = run_part(prop, "twin", seed, budget(tier, 2_000_000, 25_000_000), tier, cap, "call_and_result");
             finish(
                 prop,
                 tier,
